@@ -121,9 +121,12 @@ impl RuleAM07 {
         let mut select_target_counts = HashSet::new();
         let mut resolved_wildcard = true;
 
+        // The queries on the path that is being resolved (see `resolve_wild_query`).
+        let mut active = vec![std::rc::Rc::as_ptr(&query.inner) as *const ()];
+
         let selectables = query.inner.borrow().selectables.clone();
         for selectable in selectables {
-            let (cnt, res) = self.resolve_selectable(selectable.clone(), query.clone());
+            let (cnt, res) = self.resolve_selectable(selectable.clone(), query.clone(), &mut active);
             if !res {
                 resolved_wildcard = false;
             }
@@ -137,7 +140,12 @@ impl RuleAM07 {
     ///
     /// The selectable may opr may not have (*) wildcard expressions. If it
     /// does, we attempt to resolve them.
-    fn resolve_selectable(&self, selectable: Selectable, root_query: Query<()>) -> (usize, bool) {
+    fn resolve_selectable(
+        &self,
+        selectable: Selectable,
+        root_query: Query<()>,
+        active: &mut Vec<*const ()>,
+    ) -> (usize, bool) {
         debug_assert!(selectable.select_info().is_some());
 
         let wildcard_info = selectable.wildcard_info();
@@ -155,8 +163,12 @@ impl RuleAM07 {
         // If the set query contains one or more wildcards, attempt to resolve it to a
         // list of select targets that can be counted.
         for wildcard in wildcard_info {
-            let (_cols, _resolved) =
-                self.resolve_selectable_wildcard(wildcard, selectable.clone(), root_query.clone());
+            let (_cols, _resolved) = self.resolve_selectable_wildcard(
+                wildcard,
+                selectable.clone(),
+                root_query.clone(),
+                active,
+            );
             resolved = resolved && _resolved;
             // Add on the number of columns which the wildcard resolves to.
             num_cols += _cols;
@@ -176,14 +188,34 @@ impl RuleAM07 {
     /// only called on any subqueries (which may themselves be SELECT,
     /// WITH or set expressions) found during the resolution of any
     /// wildcards.
-    fn resolve_wild_query(&self, query: Query<()>) -> (usize, bool) {
+    ///
+    /// `active` holds the queries on the path that is being resolved: a common
+    /// table expression that is reached again from inside itself selects from
+    /// itself, so its wildcard cannot be resolved (and following the reference
+    /// once more would never end).
+    fn resolve_wild_query(&self, query: Query<()>, active: &mut Vec<*const ()>) -> (usize, bool) {
+        let key = std::rc::Rc::as_ptr(&query.inner) as *const ();
+        if active.contains(&key) {
+            return (0, false);
+        }
+        active.push(key);
+        let result = self.resolve_first_selectable(&query, active);
+        active.pop();
+        result
+    }
+
+    fn resolve_first_selectable(
+        &self,
+        query: &Query<()>,
+        active: &mut Vec<*const ()>,
+    ) -> (usize, bool) {
         // if one of the source queries for a query within the set is a
         // set expression, just use the first query. If that first query isn't
         // reflective of the others, that will be caught when that segment
         // is processed. We'll know if we're in a set based on whether there
         // is more than one selectable. i.e. Just take the first selectable.
         let selectable = query.inner.borrow().selectables[0].clone();
-        self.resolve_selectable(selectable, query.clone())
+        self.resolve_selectable(selectable, query.clone(), active)
     }
 
     /// Attempt to resolve a single wildcard (*) within a Selectable.
@@ -196,6 +228,7 @@ impl RuleAM07 {
         wildcard: WildcardInfo,
         selectable: Selectable,
         root_query: Query<()>,
+        active: &mut Vec<*const ()>,
     ) -> (usize, bool) {
         let mut resolved = true;
 
@@ -204,7 +237,7 @@ impl RuleAM07 {
             // Crawl the query looking for the subquery, problem in the FROM.
             for source in root_query.crawl_sources(selectable.selectable, false, true) {
                 if let Source::Query(query) = source {
-                    return self.resolve_wild_query(query);
+                    return self.resolve_wild_query(query, active);
                 }
             }
             return (0, false);
@@ -229,7 +262,7 @@ impl RuleAM07 {
                         cte_name = name;
                     }
                     Source::Query(query) => {
-                        let (_cols, _resolved) = self.resolve_wild_query(query);
+                        let (_cols, _resolved) = self.resolve_wild_query(query, active);
                         num_columns += _cols;
                         resolved = resolved && _resolved;
                         continue;
@@ -239,7 +272,7 @@ impl RuleAM07 {
 
             let cte = root_query.lookup_cte(&cte_name, true);
             if let Some(cte) = cte {
-                let (cols, _resolved) = self.resolve_wild_query(cte);
+                let (cols, _resolved) = self.resolve_wild_query(cte, active);
                 num_columns += cols;
                 resolved = resolved && _resolved;
             } else {
